@@ -177,27 +177,68 @@ func propC11(c *Ctx) {
 		pl := w.Fn("dig", "Integration.processLog")
 		fTopics := w.Field("eth", "Log", "Topics")
 		fTopic := w.FieldOpt("dig", "coldef", "topic")
-		dbt := w.Fn("dig", "dbtype")
 		n := 0
-		for _, call := range callsToFn(pl, dbt) {
-			// dbtype(def.Input.Type, X): X either a topic or a decoded data cell
-			s, idx, ok := elemOf(call.Call.Args[1])
+		// every read Topics[x] with a computed index that is handed to a conversion (dbtype(def.Input.Type, t),
+		// def.conv(t)): x must be the topic position recorded in the column definition the conversion belongs to
+		NewRegion(pl).AllInstrs(func(in ssa.Instruction) {
+			ld, ok := in.(*ssa.UnOp)
+			if !ok || ld.Op != token.MUL {
+				return
+			}
+			ia, ok := ld.X.(*ssa.IndexAddr)
 			if !ok {
-				continue
+				return
 			}
-			if f, _ := loadedField(stripConv(s)); f != fTopics {
-				continue
+			if f, _ := loadedField(stripConv(ia.X)); f != fTopics {
+				return
 			}
-			n++
-			// the definition whose type is converted
-			defRoot, _ := fieldChain(call.Call.Args[0])
-			good := false
-			if fTopic != nil {
-				iroot, ich := fieldChain(idx)
-				good = chainIs(ich, fTopic) && sameElem(iroot, defRoot)
+			if _, isConst := ia.Index.(*ssa.Const); isConst {
+				return // Topics[0]: the signature hash
 			}
-			c.Check("R11.7", fmt.Sprintf("processLog/topic-read#%d", n), call.Pos(), good, "the topic read for an indexed column is Topics[def.topic] of that very column definition (not a running counter over selected inputs)")
-		}
+			for _, ref := range *ld.Referrers() {
+				call, isCall := ref.(*ssa.Call)
+				if !isCall {
+					if ct, isCT := ref.(*ssa.ChangeType); isCT {
+						for _, r2 := range *ct.Referrers() {
+							if c2, ok := r2.(*ssa.Call); ok {
+								call, isCall = c2, true
+							}
+						}
+					}
+				}
+				if !isCall {
+					continue
+				}
+				n++
+				// the definition(s) the conversion is taken from: roots of its other arguments and of the function value
+				var defRoots []ssa.Value
+				for _, a := range call.Call.Args {
+					if stripConv(a) == ssa.Value(ld) {
+						continue
+					}
+					if r, ch := fieldChain(a); len(ch) > 0 {
+						defRoots = append(defRoots, r)
+					}
+				}
+				if !call.Call.IsInvoke() {
+					if r, ch := fieldChain(call.Call.Value); len(ch) > 0 {
+						defRoots = append(defRoots, r)
+					}
+				}
+				good := false
+				if fTopic != nil {
+					iroot, ich := fieldChain(ia.Index)
+					if chainIs(ich, fTopic) {
+						for _, dr := range defRoots {
+							if sameElem(iroot, dr) {
+								good = true
+							}
+						}
+					}
+				}
+				c.Check("R11.7", fmt.Sprintf("processLog/topic-read#%d", n), call.Pos(), good, "the topic read for an indexed column is Topics[def.topic] of that very column definition (not a running counter over selected inputs)")
+			}
+		})
 		if n == 0 {
 			c.Violation("R11.7", "processLog/topic-reads", pl.Pos(), "no topic read found")
 		}
@@ -526,23 +567,34 @@ func propC11(c *Ctx) {
 		in   ssa.Instruction
 	}
 	var arms []arm
-	abi := dt.Params[0]
-	for _, b := range dt.DomPreorder() {
-		for _, in := range b.Instrs {
-			switch x := in.(type) {
-			case *ssa.Call:
-				if calleeName(x) == "strings.HasPrefix" && x.Call.Args[0] == ssa.Value(abi) {
-					if s, ok := constString(x.Call.Args[1]); ok {
-						arms = append(arms, arm{"prefix", s, x})
+	// the arms may live in a function only dbtype calls (dbconv(abitype) returning the converter):
+	// taken from the function of dbtype's inlined view that tests one of its own string parameters most
+	for _, hf := range NewRegion(dt).Funcs() {
+		isParam := func(v ssa.Value) bool {
+			p, ok := v.(*ssa.Parameter)
+			return ok && p.Parent() == hf
+		}
+		var cand []arm
+		for _, b := range hf.DomPreorder() {
+			for _, in := range b.Instrs {
+				switch x := in.(type) {
+				case *ssa.Call:
+					if calleeName(x) == "strings.HasPrefix" && isParam(x.Call.Args[0]) {
+						if s, ok := constString(x.Call.Args[1]); ok {
+							cand = append(cand, arm{"prefix", s, x})
+						}
 					}
-				}
-			case *ssa.BinOp:
-				if x.Op == token.EQL && x.X == ssa.Value(abi) {
-					if s, ok := constString(x.Y); ok {
-						arms = append(arms, arm{"equal", s, x})
+				case *ssa.BinOp:
+					if x.Op == token.EQL && isParam(x.X) {
+						if s, ok := constString(x.Y); ok {
+							cand = append(cand, arm{"equal", s, x})
+						}
 					}
 				}
 			}
+		}
+		if len(cand) > len(arms) {
+			arms = cand
 		}
 	}
 	var shadows []string
@@ -561,7 +613,7 @@ func propC11(c *Ctx) {
 			t, _ := boolEdgesOf(a.in)
 			for _, e := range t {
 				if ret, ok := terminator(e.To).(*ssa.Return); ok {
-					retTypes[a.s] = stripConv(returnValues(ret)[0]).Type().String()
+					retTypes[a.s] = reprOf(returnValues(ret)[0], 0)
 				}
 			}
 		}
@@ -616,6 +668,10 @@ func derivesFromDef(v ssa.Value, idx ssa.Value, f *types.Var, depth int) bool {
 				return true
 			}
 		}
+		// the conversion itself is a member of the definition (def.conv(d))
+		if !x.Call.IsInvoke() && fromDefElem(x.Call.Value, idx, f) {
+			return true
+		}
 		return false
 	}
 	return false
@@ -631,4 +687,31 @@ func fromDefElem(v ssa.Value, idx ssa.Value, f *types.Var) bool {
 		return false
 	}
 	return i == idx && isLoadOfField(s, f)
+}
+
+// reprOf: the representation a type-mapping arm yields: the dynamic type of the
+// value returned, or – when the arm returns a converter function – of what that returns.
+func reprOf(v ssa.Value, d int) string {
+	v = stripConv(v)
+	if mc, ok := v.(*ssa.MakeClosure); ok && d < 2 {
+		out := ""
+		for _, r := range returnsOf(mc.Fn.(*ssa.Function)) {
+			for _, lf := range phiLeaves(returnValues(r)[0]) {
+				t := reprOf(lf.Val, d+1)
+				if out != "" && out != t {
+					return out + "|" + t
+				}
+				out = t
+			}
+		}
+		return out
+	}
+	if f, ok := v.(*ssa.Function); ok && d < 2 {
+		out := ""
+		for _, r := range returnsOf(f) {
+			out = reprOf(returnValues(r)[0], d+1)
+		}
+		return out
+	}
+	return v.Type().String()
 }
